@@ -25,7 +25,7 @@ func (d *DotGit) rewritePackedRefsWhileLocked(
 	// Try plain rename. If we aren't using the bare Windows filesystem as the
 	// storage layer, we might be able to get away with a rename over a locked
 	// file.
-	err := d.fs.Rename(tmp.Name(), pr.Name())
+	err := d.packedRefsFs().Rename(tmp.Name(), pr.Name())
 	if err == nil {
 		return nil
 	}
